@@ -157,7 +157,8 @@ pub struct Harness<'p> {
     wrote_since_stab: bool,
     removed_since_stab: bool,
     sub_changed_since_stab: HashSet<Tag>,
-    pub audit: Option<fn(&IncrState) -> Vec<String>>,
+    pub audit: Option<fn(&IncrState, bool) -> Vec<String>>,
+    quiescent: bool,
     /// C13: do not treat the injected panic as a C04 failure
     pub tolerate_injected: bool,
 }
@@ -189,6 +190,7 @@ impl<'p> Harness<'p> {
             removed_since_stab: false,
             sub_changed_since_stab: HashSet::new(),
             audit: None,
+            quiescent: false,
             tolerate_injected: false,
         }
     }
@@ -370,6 +372,7 @@ impl<'p> Harness<'p> {
             self.fail("C08", "get-after-write", format!("#{tag}.get() = {got:?} after {op:?}({operand:?}), expected {want:?}"));
         }
         self.wrote_since_stab = true;
+        self.quiescent = false;
         if self.removed_since_stab {
             self.classes.obs_removed_then_write += 1;
         }
@@ -461,6 +464,18 @@ impl<'p> Harness<'p> {
         }
         drop(o);
         self.after_obs_end(oi);
+    }
+
+    /// disallow_future_use on an observer that is already disallowed: must change nothing
+    pub fn act_disallow_again(&mut self, oi: usize) {
+        if self.ended {
+            return;
+        }
+        let Some(o) = self.first_clone(oi) else { return };
+        self.trace.push(format!("o{oi}.disallow_future_use()  [again]"));
+        if let Err(m) = guarded(|| o.disallow_future_use()) {
+            self.on_panic("disallow_future_use", m);
+        }
     }
 
     pub fn act_clone_obs(&mut self, oi: usize) {
@@ -732,7 +747,13 @@ impl<'p> Harness<'p> {
         self.classes.stabilises += 1;
         if let Err(m) = res {
             self.poisoned = true;
-            // keep the model's creations consistent for the final drop phase
+            if self.tolerate_injected && m.contains(trace::INJECTED_PANIC) {
+                self.trace.push(format!("!! injected fault in {:?}", trace::fault_role()));
+                self.after_injected_fault(r, &roots, &root_obs, &events);
+                self.classes.ended_by_panic = true;
+                self.ended = true;
+                return;
+            }
             return self.on_panic("stabilise", m);
         }
         self.model.process_round(&roots, &events);
@@ -831,8 +852,72 @@ impl<'p> Harness<'p> {
         self.wrote_since_stab = false;
         self.removed_since_stab = false;
         self.sub_changed_since_stab.clear();
+        self.quiescent = !events.iter().any(|e| matches!(e, Event::Write { .. }));
         if !flush {
             self.handle_orphans(&root_obs);
+        }
+    }
+
+    /// C13: a user function panicked inside stabilise and the caller caught it
+    fn after_injected_fault(&mut self, r: Round, roots: &[Tag], root_obs: &[usize], events: &[Event]) {
+        let role = trace::fault_role();
+        let in_handler = role == Some(Role::Handler);
+        if in_handler {
+            // propagation had finished: values must be the fully propagated ones
+            self.model.process_round(roots, events);
+            self.model.failures.clear();
+            for o in self.obs.iter_mut() {
+                o.state = match o.state {
+                    OState::Created => OState::InUse,
+                    OState::Disallowed => OState::Gone,
+                    s => s,
+                };
+            }
+            for e in events {
+                if let Event::HandlerDisallow { obs } = e {
+                    self.obs[*obs as usize].disallowed_in_handler = true;
+                }
+            }
+        }
+        for pass in 0..2 {
+            for oi in 0..self.obs.len() {
+                let clones: Vec<Observer<Val>> = self.obs_tbl.borrow()[oi].clones.iter().flatten().cloned().collect();
+                for c in clones {
+                    let got = match guarded(|| read_obs(&c)) {
+                        Ok(g) => g,
+                        Err(m) => {
+                            self.fail("C13", "read-panicked", format!("round {r}: reading o{oi} after the caught panic panicked: {m}"));
+                            continue;
+                        }
+                    };
+                    if in_handler {
+                        if !root_obs.contains(&oi) || self.obs[oi].disallowed_in_handler || self.model.gave_up.is_some() {
+                            continue;
+                        }
+                        if let Some(want) = self.expected_read_after(oi) {
+                            if got != want {
+                                self.fail("C13", "handler-fault-values", format!("round {r}: a handler panicked after propagation; o{oi} returned {got:?}, the fully propagated value is {want:?}"));
+                            }
+                        }
+                    } else if let Ok(v) = got {
+                        self.fail("C13", "value-after-fault", format!("round {r}: a {role:?} function panicked during propagation; o{oi} still returned a value ({v:?}) (pass {pass})"));
+                    }
+                }
+            }
+            if pass == 0 {
+                // a further stabilise must refuse to run, without invoking any user function
+                let st = self.st().clone();
+                let before = trace::ticks();
+                let res = guarded(|| st.stabilise());
+                let after = trace::ticks();
+                let _ = take_log();
+                if res.is_ok() {
+                    self.fail("C13", "stabilise-ran-again", format!("round {r}: stabilise returned normally after a caught panic in {role:?}"));
+                }
+                if after != before {
+                    self.fail("C13", "stabilise-ran-again", format!("round {r}: the refused stabilise still invoked {} user functions", after - before));
+                }
+            }
         }
     }
 
@@ -1210,7 +1295,8 @@ impl<'p> Harness<'p> {
         }
         let (Some(f), Some(st)) = (self.audit, self.state.clone()) else { return };
         self.classes.audits += 1;
-        match guarded(|| f(&st)) {
+        let q = self.quiescent;
+        match guarded(|| f(&st, q)) {
             Ok(complaints) => {
                 for c in complaints.into_iter().take(3) {
                     self.fail("C11", "audit", format!("after `{after}`: {c}"));
@@ -1412,10 +1498,24 @@ impl ClonedObserver for Option<&Observer<Val>> {
 }
 
 /// Run one case from its choice sequence.
-pub fn run_case(prof: &Profile, bytes: &[u8], audit: Option<fn(&IncrState) -> Vec<String>>) -> CaseResult {
+pub fn run_case(prof: &Profile, bytes: &[u8], audit: Option<fn(&IncrState, bool) -> Vec<String>>) -> CaseResult {
+    run_case_fault(prof, bytes, audit, None)
+}
+
+/// Same, with a panic injected at the k-th invocation of a user function (C13).
+pub fn run_case_fault(
+    prof: &Profile,
+    bytes: &[u8],
+    audit: Option<fn(&IncrState, bool) -> Vec<String>>,
+    fault_at: Option<u64>,
+) -> CaseResult {
     let mut ch = Choices::new(bytes);
     let mut h = Harness::new(prof);
     h.audit = audit;
+    if let Some(k) = fault_at {
+        trace::set_fault_at(k);
+        h.tolerate_injected = true;
+    }
     if prof.templates > 0 && (ch.choose(100) as u32) < prof.templates {
         crate::templates::run_template(&mut h, &mut ch);
     }
